@@ -308,6 +308,11 @@ func (nfs *Nfs) NFSPROC3_WRITE(args nfstypes.WRITE3args) nfstypes.WRITE3res {
 		errRet(op, &reply.Status, nfstypes.NFS3ERR_INVAL)
 		return reply
 	}
+	if uint64(args.Count) > uint64(len(args.Data)) {
+		// the request promises more bytes than it carries
+		errRet(op, &reply.Status, nfstypes.NFS3ERR_INVAL)
+		return reply
+	}
 	if uint64(args.Count) > maxWrite {
 		errRet(op, &reply.Status, nfstypes.NFS3ERR_INVAL)
 		return reply
